@@ -16,9 +16,17 @@ and after the last step
 reverting, partly reverting, out of bounds, cancelled by ParameterOutOfBoundsError) the returned value and EVERY
 numeric cell of the active buffer equal those of a newly made calculator moved to the same vector in one step.
 
+What the statement leaves open is accepted both ways: a value-less rule over edges with different values may
+settle anywhere between them; a value outside new bounds may be kept or clipped; a refused operation may leave
+either nothing or the part accepted before the refusal in force; after a *cancelled* calculator step the
+calculator may stand at the previous vector or (when the step began by undoing) at the one before -- it only has
+to be a working calculator at the vector it reports.  Which exception type refuses an operation is not checked.
+
 A case is JSON: {"cfg": [model, ntips], "ops": [...]} / {"cfg":..., "setup": [...], "mode":..., "steps": [...]}.
 Failure keys: contract/model/check/kinds of the ops of the *shrunk* history (ops are removed greedily while the
-same check keeps failing), so a key names a root-cause pattern, not an input.
+same check keeps failing), so a key names a root-cause pattern, not an input.  When the shrunk history needs a
+block that was refused half-way before the failing step, the key is <contract>/<model>/not-following-after-
+refused-block/<block kind> > any operation (which part of the view shows it first is in the message).
 """
 from __future__ import annotations
 
@@ -296,7 +304,7 @@ def bad_kwargs(op, model):
 
 
 def resolve_step(step, hist, cur, lo, hi, names):
-    """target vector of a calculator step, or None when the step does not apply (nothing to go back to)"""
+    """target vector of a calculator step"""
     n = len(cur)
     k = step[0]
     if n == 0:                                # nothing is free: every step is the empty vector
@@ -323,10 +331,12 @@ def resolve_step(step, hist, cur, lo, hi, names):
         i = int(step[1]) % n
         t = cur.copy()
         linear = names[i] == "length"
+        huge = hi[i] > 100                     # a linear parameter with an astronomic upper bound (gamma shape)
         if step[2] == "hi":
-            t[i] = hi[i] + 1.0
+            # (evaluating the gamma quantiles at 1e10 takes minutes: such a parameter is only moved far up)
+            t[i] = 30.0 if huge else hi[i] + 1.0
         else:
-            t[i] = lo[i] - (0.05 if linear else 1.0)
+            t[i] = lo[i] - (0.05 if linear else (0.005 if huge else 1.0))
         return t
     raise ValueError(step)
 
@@ -813,7 +823,7 @@ def run_calculator(case):
         return ("initial-value", f"new calculator gives {cur_val!r}, lf.lnL {float(lf.lnL)!r}")
     hist = [cur.copy()]
     for n, step in enumerate(case["steps"]):
-        t = resolve_step(step, hist, cur, lo, hi, names)
+        t = target = resolve_step(step, hist, cur, lo, hi, names)
         raised = ref_raised = None
         try:
             val = apply_vector(calc, cur, t, mode)
@@ -833,6 +843,12 @@ def run_calculator(case):
             # there.  The vector it reports is taken as its setting from here on.
             what = "after-cancelled-step"
             t = numpy.array(calc.get_value_array(), float)
+            allowed = hist[-2:]
+            if not any(numpy.allclose(t, a, rtol=1e-12, atol=1e-12) for a in allowed):
+                return ("cancelled-step-not-rolled-back",
+                        f"step {n} (to {target.tolist()}) was refused with {type(raised).__name__}; the calculator now "
+                        f"reports the vector {t.tolist()}, which is neither the previous vector {cur.tolist()} nor the "
+                        f"one before")
             ref = lf.make_calculator()
             try:
                 ref_val = ref.testoptparvector(t.copy())
